@@ -7,8 +7,17 @@ from fractions import Fraction as F
 
 import numpy as np
 
-from .. import proto
+import random
+
+from .. import proto, thr_common
 from ..core import Check, Problem, register
+
+
+def _history_flag(case):
+    """30 % of the ThresholdOptimizer cases: the object under test had a previous life (thr_common.previous_life: fit on other
+    data with one extra group + one prediction) before the fit whose `interpolation_dict` is compared with the per-tuple refit.
+    Derived from the case's own content, so the main random stream is not disturbed."""
+    return random.Random(json.dumps([case["rows"], case["y"]], default=str)).random() < 0.3
 
 PIECES = [",", "\\", "a", "1", "1.0", "", " "]
 INTS = [0, 1, 2, 10]
@@ -342,6 +351,7 @@ class CHECK(Check):
                           "qcontainer": container}
             if all(c == "s" for c in cols):
                 case["to"]["qcontainer"] = rng.choice(["df", "ndobj", "ndU", "list"])
+            case["history"] = _history_flag(case)
         elif r < 0.58:
             case["do"].append("eg")
         elif r < 0.70:
@@ -413,6 +423,8 @@ class CHECK(Check):
             case["ctrl"] = [list(rng.choice(cpool)) for _ in range(n)]
             case["ctrl_cols"] = cc
             case["moment"] = rng.choice(["DP", "EO"])
+        if case["to"]:
+            case["history"] = _history_flag(case)
         return case
 
     def generate(self, rng, tier):
@@ -571,13 +583,15 @@ class CHECK(Check):
             rank = {k: i for i, k in enumerate(sorted(set(keys), key=str))}
             ref_ids = [f"g{rank[k]:03d}" for k in keys]
 
-            def fit(sf):
+            def fit(sf, history=False):
                 to = ThresholdOptimizer(estimator=make_pass(), constraints=case["to"], prefit=True,
                                         predict_method="predict", grid_size=8)
+                if history:     # the object under test had a previous life (other data, one extra group); the reference is fresh
+                    thr_common.previous_life(to, np.asarray(X, dtype=float).reshape(-1), y, ref_ids, "g-previous-life")
                 to.fit(X, y, sensitive_features=sf)
                 return to
             try:
-                to, ref = fit(table), fit(ref_ids)
+                to, ref = fit(table, bool(case.get("history"))), fit(ref_ids)
                 d = to.interpolated_thresholder_.interpolation_dict
                 qidx = [i for i, _ in case["query"]]
                 qs = np.array([float(F(s)) for _, s in case["query"]]).reshape(-1, 1)
@@ -670,13 +684,15 @@ class CHECK(Check):
             from fairlearn.postprocessing import ThresholdOptimizer
             cfg = case["to"]
 
-            def fit(sf):
+            def fit(sf, history=False):
                 to = ThresholdOptimizer(estimator=make_pass(), constraints=cfg["constraints"], prefit=True,
                                         predict_method="predict", grid_size=cfg["grid"], flip=cfg["flip"])
+                if history:     # the object under test had a previous life (other data, one extra group); the reference is fresh
+                    thr_common.previous_life(to, np.asarray(X, dtype=float).reshape(-1), y, ref_ids, "g-previous-life")
                 to.fit(X, y, sensitive_features=sf)
                 return to
             try:
-                to = fit(table)
+                to = fit(table, bool(case.get("history")))
                 ref = fit(ref_ids)
                 d = to.interpolated_thresholder_.interpolation_dict
                 dr = ref.interpolated_thresholder_.interpolation_dict
@@ -1005,6 +1021,7 @@ class CHECK(Check):
                 tags.append("callers:rejected(None in DataFrame)")
             if isinstance(o, dict) and isinstance(o.get("to"), dict):
                 tags.append("callers:to_exc" if "exc" in o["to"] else "callers:to")
+                tags.append("history=refit-after-a-previous-life" if case.get("history") else "history=fresh")
                 if case["qcontainer"] != case["container"]:
                     tags.append("callers:other_container_at_predict")
             return (json.dumps(case, sort_keys=True, default=str), len(set(keys)) >= 2, tags)
@@ -1028,6 +1045,7 @@ class CHECK(Check):
         if isinstance(o, dict):
             if isinstance(o.get("to"), dict):
                 tags.append("to_exc" if "exc" in o["to"] else f"to_{case['to']['constraints']}")
+                tags.append("history=refit-after-a-previous-life" if case.get("history") else "history=fresh")
                 if "exc" not in o["to"] and case["to"]["qcontainer"] != case["container"]:
                     tags.append("to_other_container_at_predict")
             if "crash" in o:
